@@ -138,7 +138,12 @@ fn one_case(run: &Run, case: u64) {
 
     let arch = sc.join("arch");
     cs::create_archive(&arch);
-    let b = cs::backup(cs::local(&arch), &src, o, &[], None);
+    // every fifth case runs backup and restore on a 4-worker runtime
+    let workers = if case % 5 == 4 { 4 } else { 0 };
+    if workers > 0 {
+        run.count("cases_on_a_multi_thread_runtime", 1);
+    }
+    let b = cs::with_workers(workers, || cs::backup(cs::local(&arch), &src, o, &[], None));
     if let Some(pmsg) = &b.panic {
         run.violation(
             format!("backup-panic:{}", panic_site(pmsg)),
@@ -171,7 +176,7 @@ fn one_case(run: &Run, case: u64) {
         run.violation("backup-modified-source", "source tree changed during backup", replay);
         return;
     }
-    match restore_and_compare(&arch, Some(0), &snap, &sc, &CmpOpts::default()) {
+    match cs::with_workers(workers, || restore_and_compare(&arch, Some(0), &snap, &sc, &CmpOpts::default())) {
         Ok(()) => {
             run.count("restores_compared", 1);
             run.count(
@@ -191,7 +196,7 @@ pub fn run(tier: Tier, replay: Option<Value>) -> i32 {
     let n = tier.pick(3000, 200000);
     run.par_cases(n, super::threads(), |case| one_case(&run, case));
     run.finish(
-        "seeded generated trees (depth<=4; names with leading dots, bytes below/above '/', multi-byte; file sizes at 0/1/cap±1/block±1/2·block/3·block+7; duplicate and prefix contents; modes cycling through 0..0o7777; mtimes from {-2^31..2^33}s x {0,1,5e8,999999999,random}ns on files, dirs and symlinks; dangling/absolute/.. symlinks; named owners; every 40th case additionally a wide and deep tree: 150-500 files and 40 subdirectories in one directory, names of 250 bytes, a chain of 30 nested directories) x option sets drawn from all 216 combinations; backup must be Ok with no error reported, restore into an empty directory must be Ok with no error and the lstat/readlink/read snapshot of the result must equal that of the source (bytes, kind, target, mtime ns incl. directories and root, mode&0o7777, uid/gid as root). Non-trivial = has a multi-block file, a combined block of >=2 files, a special mode bit, a pre-epoch or sub-second mtime, or a non-ASCII name; distinct by (tree signature, options).",
+        "seeded generated trees (depth<=4; names with leading dots, bytes below/above '/', multi-byte; file sizes at 0/1/cap±1/block±1/2·block/3·block+7; duplicate and prefix contents; modes cycling through 0..0o7777; mtimes from {-2^31..2^33}s x {0,1,5e8,999999999,random}ns on files, dirs and symlinks; dangling/absolute/.. symlinks; named owners; every 40th case additionally a wide and deep tree: 150-500 files and 40 subdirectories in one directory, names of 250 bytes, a chain of 30 nested directories) x option sets drawn from all 216 combinations; every fifth case runs on a 4-worker multi-thread runtime instead of the current-thread one; backup must be Ok with no error reported, restore into an empty directory must be Ok with no error and the lstat/readlink/read snapshot of the result must equal that of the source (bytes, kind, target, mtime ns incl. directories and root, mode&0o7777, uid/gid as root). Non-trivial = has a multi-block file, a combined block of >=2 files, a special mode bit, a pre-epoch or sub-second mtime, or a non-ASCII name; distinct by (tree signature, options).",
         &[
             "expected values are the snapshot of what the file system actually holds (tmpfs /dev/shm)",
             "release profile, debug assertions off",
